@@ -7,7 +7,17 @@ else:
 
 import functools
 import inspect
-from typing import Callable, Dict, Generic, Optional, Set, TypeVar, Union, overload
+from typing import (
+    Callable,
+    Dict,
+    Generic,
+    List,
+    Optional,
+    Set,
+    TypeVar,
+    Union,
+    overload,
+)
 
 from .arguments import Arguments, arguments
 from .types import Evaluatable, MaybeEvaluatable, Options
@@ -136,6 +146,7 @@ class FunctionApplication(Generic[P, A], Evaluatable[A]):
             return lambda f: cls.lift(f, **kwargs)
 
         signature = inspect.signature(__func)
+        eval_args: List[Evaluatable["P.args"]] = []
         eval_kwargs: Dict[str, Evaluatable["P.kwargs"]] = {}
 
         has_kwargs = any(
@@ -150,14 +161,23 @@ class FunctionApplication(Generic[P, A], Evaluatable[A]):
                 raise TypeError(
                     f"Cannot lift function {__func} with non-defaulted parameters"
                 )
-            eval_kwargs[param.name] = Evaluatable.ensure(default)
+            if param.kind == param.POSITIONAL_ONLY:
+                # def f(a=Option('A'), /): cannot be passed by keyword
+                eval_args.append(Evaluatable.ensure(default))
+            else:
+                eval_kwargs[param.name] = Evaluatable.ensure(default)
 
         if has_kwargs:
+            positional = {
+                param.name
+                for param in signature.parameters.values()
+                if param.kind == param.POSITIONAL_ONLY
+            }
             for key, value in kwargs.items():
-                if key not in eval_kwargs:
+                if key not in eval_kwargs and key not in positional:
                     eval_kwargs[key] = Evaluatable.ensure(value)
 
-        return FunctionApplication(__func, **eval_kwargs)
+        return FunctionApplication(__func, *eval_args, **eval_kwargs)
 
 
 class PartialApplication(Generic[P, A], Evaluatable[Callable[..., A]]):
